@@ -52,7 +52,11 @@ type c13Scen struct {
 	Recover  bool        `json:"recover"`
 	Preempt  int         `json:"preempt_permille"`
 	Clients  [][]*c13Req `json:"clients"`
-	entry    int
+	// Raw: the provider is installed as it is, without the ledger wrapper around it. Whatever the library
+	// asks a provider beyond the CompressorProvider interface (an optional interface it type-asserts for)
+	// is answered by the real provider then; judged are the payloads, blocking and the race detector.
+	Raw   bool `json:"provider_installed_without_the_ledger,omitempty"`
+	entry int
 }
 
 type echoEntity struct {
@@ -83,6 +87,7 @@ func genC13(x *Ctx) *c13Scen {
 	case 3:
 		sc.Provider = "lifo"
 	}
+	sc.Raw = sc.Provider != "lifo" && tp.Chance(120)
 	sc.entry = tp.G(3) // 2: the container's ServeMux used directly as the http.Handler
 	sc.Entry = []string{"ServeHTTP", "Dispatch", "Mux"}[sc.entry]
 	sc.Recover = tp.Bool()
@@ -157,6 +162,10 @@ func runC13(x *Ctx) {
 		inner = sim.NewLIFOProvider()
 	}
 	restful.SetCompressorProvider(&sim.LedgerProvider{Inner: inner, Sim: s})
+	if sc.Raw {
+		restful.SetCompressorProvider(inner)
+		x.Count("reach:provider-without-ledger")
+	}
 
 	byID := map[int]*c13Req{}
 	for _, cl := range sc.Clients {
